@@ -24,7 +24,8 @@ Files most relevant: {files}
   1. the project still compiles (`go1.26.8 build ./...`),
   2. the existing tests of every package you touched still pass (`go1.26.8 test -vet=off -count=1 <pkg>`; run them — if one fails, choose a different change),
   3. the breakage needs something specific to manifest (a particular input shape, timing, interleaving, fault or history) — not something every query trips over,
-  4. it is NOT a change that merely deletes a feature wholesale or makes everything fail.
+  4. it is NOT a change that merely deletes a feature wholesale or makes everything fail,
+  5. it manifests in the default deployment: sdns as a recursive resolver talking to authoritative servers (no `forwarderservers` configured, so not a change that only the forwarder middleware path can reach).
 
 Then write a demonstration: a NEW Go test file (name it *_seeded_test.go, in the package where it fits best) containing a test that PASSES on the unchanged tree and FAILS with your change, showing the property being violated as directly as you can (drive the real code; no mocks of the code under test).
 
